@@ -7,7 +7,9 @@ PROP_V = ["Props/Properties_C06.v", "Props/Properties_C01w.v"]
 GEN_MODULES = ["Consts", "Sites"]
 FLOW_FILES = ['mu.c', 'mu_wait.c']
 REPLAY_HINT = "VRT_SEED=<seed> [VRT_MODE=<m>] _work/h/muwait_mix"
-PARTIAL = ["C06_rings / C06_scan_sound are proved over the pure functions the model's steps call (enqueue with merge at both ends, removal with "
+PARTIAL = ["the clause 'a release by nsync_mu_unlock_without_wakeup may leave asleep only waiters whose conditions were already false before that critical section began' has no theorem (the kept targets exclude OUnlockNW programs via `no_nw`); it is decided by the muwait_mix bystander oracle (bystander sections change nothing and end with unlock_without_wakeup; every waiter whose condition was made true must still return)",
+           "'alongside cv waiters': MuWaitModel has no cv waiter transferred onto the mutex queue (cv.c:68-110 can enqueue inside the scanner's released-spinlock window); the lock-step tie runs VRT_CV=0 only; cv waiters on the same mutex are covered by the scenario oracles (VRT_CV=1, MODE 3) and by CvModel's abstract mutex",
+           "C06_rings / C06_scan_sound are proved over the pure functions the model's steps call (enqueue with merge at both ends, removal with "
            "ring repair, one scan round), for queues of any length; RingInv is not yet lifted to an invariant of all reachable worlds",
            "C06_allfalse_sound and C06_no_stuck are kept as Definitions (_full) with C06_allfalse_partial proved (site by site, which word writes can "
            "set, clear or keep MU_ALL_FALSE); 'every waiter whose condition became true returns' is decided by the stuck detector"]
